@@ -478,7 +478,48 @@ func (c *Ctx) mustWrite0(fn *ssa.Function, assume func(*ssa.If) int, stack map[*
 	solve := func() map[*ssa.BasicBlock]map[string]bool { return nil }
 	_ = solve
 	// forward must dataflow
+	// an edge taken under err != nil from which only `return …, err` (that very value) can be reached
+	// belongs to failure paths: `if err == nil { reinitialise }; return err`
+	failEdge := func(p, s *ssa.BasicBlock) bool {
+		iff, ok := p.Instrs[len(p.Instrs)-1].(*ssa.If)
+		if !ok || p.Succs[0] == p.Succs[1] {
+			return false
+		}
+		cd := unNot(Cond{iff.Cond, p.Succs[0] == s})
+		bo, ok := cd.V.(*ssa.BinOp)
+		if !ok || (bo.Op != token.EQL && bo.Op != token.NEQ) {
+			return false
+		}
+		var v ssa.Value
+		if k, isC := bo.Y.(*ssa.Const); isC && k.Value == nil {
+			v = bo.X
+		} else if k, isC := bo.X.(*ssa.Const); isC && k.Value == nil {
+			v = bo.Y
+		}
+		if v == nil || !isErrorType(v.Type()) || isNilCmp(Cond{iff.Cond, p.Succs[0] == s}, v) != +1 {
+			return false
+		}
+		nret := 0
+		for bb := range fi.reach[s] {
+			if r, isR := bb.Instrs[len(bb.Instrs)-1].(*ssa.Return); isR {
+				nret++
+				if len(r.Results) == 0 || r.Results[len(r.Results)-1] != v {
+					return false
+				}
+			}
+		}
+		if r, isR := s.Instrs[len(s.Instrs)-1].(*ssa.Return); isR {
+			nret++
+			if len(r.Results) == 0 || r.Results[len(r.Results)-1] != v {
+				return false
+			}
+		}
+		return nret > 0
+	}
 	pruned := func(p, s *ssa.BasicBlock) bool {
+		if failEdge(p, s) {
+			return true
+		}
 		if assume == nil {
 			return false
 		}
@@ -597,8 +638,8 @@ func (c *Ctx) mustWrite0(fn *ssa.Function, assume func(*ssa.If) int, stack map[*
 		if c.isFailureReturn(fi, r) {
 			continue
 		}
-		// unreachable under assumption?
-		if assume != nil && !c.reachableUnder(fn, b, pruned) {
+		// unreachable under assumption / only over failure edges?
+		if !c.reachableUnder(fn, b, pruned) {
 			continue
 		}
 		if res == nil {
